@@ -110,6 +110,9 @@ def run(prop, tier, seed):
             # the reduced workload of the same monitor under the UB interpreter, several workload seeds in parallel
             import miri
             miri.run_multi(prop, [seed * 1000 + i for i in range(8)], 1, mon, "reduced %s workload with the monitors active" % prop)
+        if tier == "thorough":
+            import asan
+            asan.run(prop, seed, mon)
         extra = {}
         return common.finish(prop, LEVEL.get(prop, "exploration"), tier, seed, mon, t0, rule or "see DESIGN.md",
                              ASSUME_E2, extra)
